@@ -151,6 +151,11 @@ def gen_cases(rng, tier):
             cases.append([cid, "c16", "tsx", script, ops])
     for n in (3, 40):
         cases.append(["gap-%d" % n, "c16", "ua", "uas", "quiesce", _gap_flood(n), "1"])
+    # one request overtakes its predecessor, the gap is filled at once, then the peer goes on in order: nothing is missing in front of
+    # anything, so nothing may stay parked however long the dialog goes on
+    for n in (4, 30):
+        cases.append(["fill-%d" % n, "c16", "ua", "uas", "quiesce", _gap_flood(n, order=[1, 0] + list(range(2, n)), base=315), "1"])
+    cases.append(["fill-9", "c16", "ua", "uas", "quiesce", _gap_flood(9, order=[2, 1, 0, 3, 5, 4, 6, 7, 8], base=315), "1"])
     # STUN client transactions: every way a call can end (response, timeout, transport error, abandoned by the caller)
     k = 0
     for resp in ("-", "100", "1700", "40000"):
@@ -222,13 +227,14 @@ def gen_cases(rng, tier):
     return cases
 
 
-def _gap_flood(n):
-    """an established dialog, then n in-dialog requests that all skip one CSeq number (peer never sends it)"""
+def _gap_flood(n, order=None, base=320):
+    """an established dialog, then n in-dialog requests that all skip one CSeq number (peer never sends it); with base=315 (the number
+    after the INVITE's) and an order, the requests leave no gap in the end"""
     steps = ["0:inv", "100:accept", "200:ack"]
     t = 1000
-    for i in range(n):
+    for i in (order if order is not None else range(n)):
         raw = ("INFO sip:me@10.0.0.1 SIP/2.0\r\nVia: SIP/2.0/UDP 10.9.9.9:5060;branch=z9hG4bKgap%d\r\nFrom: <sip:peer@example.org>;tag=ptag\r\n"
-               "To: <sip:me@example.org>;tag=@@TAG@@\r\nCall-ID: ua-call\r\nCSeq: %d INFO\r\nMax-Forwards: 70\r\nContent-Length: 0\r\n\r\n" % (i, 320 + i)).encode()
+               "To: <sip:me@example.org>;tag=@@TAG@@\r\nCall-ID: ua-call\r\nCSeq: %d INFO\r\nMax-Forwards: 70\r\nContent-Length: 0\r\n\r\n" % (i, base + i)).encode()
         steps.append("%d:raw:%s" % (t, raw.hex())); t += 20
     steps.append("%d:wait" % (t + 40000))
     return ",".join(steps)
@@ -342,6 +348,11 @@ def oracle(case, impl):
             return ["no quiescence observation: " + impl[-200:]]
         if any(int(x) != 0 for x in m.groups()):
             out.append("state left behind after every application object was dropped and 70 s passed: tsx=%s tp=%s dlg=%s backlog=%s cancel=%s" % m.groups())
+        if case[0].startswith("fill-"):
+            b = re.search(r"tables=tsx(\d+)/tp\d+/dlg\d+/backlog(\d+)", impl)
+            if b and int(b.group(2)) > 0:
+                out.append("%s in-dialog requests arrived with one overtaking its predecessor and the gap filled at once; 40 s after the last of them %s are still parked "
+                           "(transaction entries=%s) although no number is missing in front of them" % (case[0].split("-")[1], b.group(2), b.group(1)))
         if case[0].startswith("gap-"):
             b = re.search(r"tables=tsx(\d+)/tp\d+/dlg\d+/backlog(\d+)", impl)
             if b and int(b.group(2)) > 0:
